@@ -440,7 +440,9 @@ func (e *BinaryOpExpr) execStringBetween(kv KVPair, ctx *ExecuteCtx) (any, error
 		return false, err
 	}
 	if !cmp {
-		return false, NewExecuteError(e.GetPos(), "between operator lower boundary is greater than upper boundary")
+		// No value lies between such boundaries (x >= lower and x <= upper
+		// is false), as the scan range optimizer reads it
+		return false, nil
 	}
 	lcmp, err := execStringCompare(lval, left, "<=")
 	if err != nil {
@@ -488,7 +490,9 @@ func (e *BinaryOpExpr) execNumberBetween(kv KVPair, ctx *ExecuteCtx) (any, error
 		return false, err
 	}
 	if !cmp {
-		return false, NewExecuteError(e.GetPos(), "between operator lower boundary is greater than upper boundary")
+		// No value lies between such boundaries (x >= lower and x <= upper
+		// is false), as the scan range optimizer reads it
+		return false, nil
 	}
 	lcmp, err := execNumberCompare(lval, left, "<=")
 	if err != nil {
